@@ -139,3 +139,8 @@ func (t *Tape) LogRange(lo, hi int, label string) int {
 	}
 	return lo + min + t.Choose(max-min, label+"/v")
 }
+
+// Pick2 returns one of the given strings.
+func (t *Tape) Pick2(label string, vals ...string) string {
+	return vals[t.Choose(len(vals), label)]
+}
